@@ -44,8 +44,8 @@ func init() {
 			Old: "\t\t\tvar info MysqlTable\n", New: "\t\t\tvar info MysqlTable\n\t\t\tif prev, seen := tablesMaps[tableID^1]; seen && prev.tableMap.Name == tm.Name {\n\t\t\t\ttc.table = prev.table\n\t\t\t\ttablesMaps[tableID] = tc\n\t\t\t\tcontinue\n\t\t\t}\n",
 			Expect: "C15-R2 count-guard@parser[insert"},
 		Variant{ID: "c15-r3-missing-id-ignored", Prop: "C15", File: "streamer.go",
-			Old: "\t\t\ttc, ok := tablesMaps[tableID]\n\t\t\tif !ok {\n\t\t\t\treturn pos, newError(fmt.Errorf(\"parseEvents unknown tableID %v in DeleteRows event\", tableID))\n\t\t\t}\n",
-			New: "\t\t\ttc, ok := tablesMaps[tableID]\n\t\t\tif !ok {\n\t\t\t\tcontinue\n\t\t\t}\n",
+			Old:    "\t\t\ttc, ok := tablesMaps[tableID]\n\t\t\tif !ok {\n\t\t\t\treturn pos, newError(fmt.Errorf(\"parseEvents unknown tableID %v in DeleteRows event\", tableID))\n\t\t\t}\n",
+			New:    "\t\t\ttc, ok := tablesMaps[tableID]\n\t\t\tif !ok {\n\t\t\t\tcontinue\n\t\t\t}\n",
 			Expect: "C15-R3 rows-entry@parser[arm=IsDeleteRows"},
 		Variant{ID: "c15-r4-no-image-count-guard", Prop: "C15", File: "streamer.go",
 			Old: "\tif rs.IdentifyColumns.Count() != len(tc.table.Columns()) {", New: "\tif rs.IdentifyColumns.Count() > len(tc.table.Columns()) {",
@@ -54,8 +54,8 @@ func init() {
 			Old: "\t\treturn uint16(data[pos])<<8 + uint16(data[pos+1]), pos + 2, nil", New: "\t\treturn uint16(data[pos]) + uint16(data[pos+1])<<8, pos + 2, nil",
 			Expect: "C15-R5 metadata@"},
 		Variant{ID: "c15-r5-class-moved", Prop: "C15", File: "replication/binlog_event_rbr.go",
-			Old: "\tcase TypeFloat, TypeDouble, TypeTimestamp2, TypeDateTime2, TypeTime2, TypeJSON, TypeTinyBlob, TypeMediumBlob, TypeLongBlob, TypeBlob, TypeGeometry:\n\t\t// One byte.\n\t\treturn uint16(data[pos]), pos + 1, nil\n\n\tcase TypeNewDecimal, TypeEnum, TypeSet, TypeString:",
-			New: "\tcase TypeFloat, TypeDouble, TypeTimestamp2, TypeDateTime2, TypeTime2, TypeJSON, TypeTinyBlob, TypeMediumBlob, TypeLongBlob, TypeBlob:\n\t\t// One byte.\n\t\treturn uint16(data[pos]), pos + 1, nil\n\n\tcase TypeNewDecimal, TypeEnum, TypeSet, TypeString, TypeGeometry:",
+			Old:    "\tcase TypeFloat, TypeDouble, TypeTimestamp2, TypeDateTime2, TypeTime2, TypeJSON, TypeTinyBlob, TypeMediumBlob, TypeLongBlob, TypeBlob, TypeGeometry:\n\t\t// One byte.\n\t\treturn uint16(data[pos]), pos + 1, nil\n\n\tcase TypeNewDecimal, TypeEnum, TypeSet, TypeString:",
+			New:    "\tcase TypeFloat, TypeDouble, TypeTimestamp2, TypeDateTime2, TypeTime2, TypeJSON, TypeTinyBlob, TypeMediumBlob, TypeLongBlob, TypeBlob:\n\t\t// One byte.\n\t\treturn uint16(data[pos]), pos + 1, nil\n\n\tcase TypeNewDecimal, TypeEnum, TypeSet, TypeString, TypeGeometry:",
 			Expect: "C15-R5 metadata@"},
 		Variant{ID: "c15-r6-tableid-width", Prop: "C15", File: "replication/binlog_event_common.go",
 			Old: "\tif f.HeaderSize(typ) == 6 {\n\t\t// Encoded in 4 bytes.", New: "\tif f.HeaderSize(typ) == 8 {\n\t\t// Encoded in 4 bytes.",
@@ -197,37 +197,37 @@ func c15R1R2(a *A, r *Roles, ar *Arms) {
 			break
 		}
 		insert = cand
-	for _, ce := range dominatingConds(cand.Block()) {
-		bo, ok := ce.Cond.(*ssa.BinOp)
-		if !ok || (bo.Op != token.NEQ && bo.Op != token.EQL) {
-			continue
-		}
-		sides := []ssa.Value{bo.X, bo.Y}
-		isInfo, isTm := false, false
-		for _, s := range sides {
-			if c, ok := s.(*ssa.Call); ok && isBuiltin(c.Common(), "len") {
-				if cc, ok := c.Common().Args[0].(*ssa.Call); ok && cc.Common().IsInvoke() && cc.Common().Method.Name() == "Columns" && resolve(cc.Common().Value) == info {
-					isInfo = true
+		for _, ce := range dominatingConds(cand.Block()) {
+			bo, ok := ce.Cond.(*ssa.BinOp)
+			if !ok || (bo.Op != token.NEQ && bo.Op != token.EQL) {
+				continue
+			}
+			sides := []ssa.Value{bo.X, bo.Y}
+			isInfo, isTm := false, false
+			for _, s := range sides {
+				if c, ok := s.(*ssa.Call); ok && isBuiltin(c.Common(), "len") {
+					if cc, ok := c.Common().Args[0].(*ssa.Call); ok && cc.Common().IsInvoke() && cc.Common().Method.Name() == "Columns" && resolve(cc.Common().Value) == info {
+						isInfo = true
+					}
+					// len(tm.Types)
+					if fieldPath(c.Common().Args[0]) == "Types" || strings.HasSuffix(fieldPath(c.Common().Args[0]), ".Types") {
+						if derivesFromValue(c.Common().Args[0], tm) {
+							isTm = true
+						}
+					}
 				}
-				// len(tm.Types)
-				if fieldPath(c.Common().Args[0]) == "Types" || strings.HasSuffix(fieldPath(c.Common().Args[0]), ".Types") {
-					if derivesFromValue(c.Common().Args[0], tm) {
+				if c, ok := s.(*ssa.Call); ok && c.Common().StaticCallee() != nil && c.Common().StaticCallee().Name() == "Count" {
+					if fa, ok := c.Common().Args[0].(*ssa.FieldAddr); ok && fa.X == tm {
 						isTm = true
 					}
 				}
 			}
-			if c, ok := s.(*ssa.Call); ok && c.Common().StaticCallee() != nil && c.Common().StaticCallee().Name() == "Count" {
-				if fa, ok := c.Common().Args[0].(*ssa.FieldAddr); ok && fa.X == tm {
-					isTm = true
-				}
+			equalEdge := (bo.Op == token.EQL) == ce.Val
+			if isInfo && isTm && equalEdge {
+				guarded = true
+				guardIf = ce.If
 			}
 		}
-		equalEdge := (bo.Op == token.EQL) == ce.Val
-		if isInfo && isTm && equalEdge {
-			guarded = true
-			guardIf = ce.If
-		}
-	}
 	}
 	// every other insertion site must be guarded the same way, and its entry must carry the mapper's answer of this iteration
 	for i, other := range inserts {
